@@ -218,6 +218,8 @@ package stgutg
 //@ call GetUplinkNASTransport amfid (amfUeNgapID int64, ngapMsg *ngapType.NGAPPDU): amfUeNgapID == ngapMsg.InitiatingMessage.Value.DownlinkNASTransport.ProtocolIEs.List[0].Value.AMFUENGAPID.Value
 //@ call GetInitialContextSetupResponse amfid (amfUeNgapID int64, ngapMsg *ngapType.NGAPPDU): amfUeNgapID == ngapMsg.InitiatingMessage.Value.DownlinkNASTransport.ProtocolIEs.List[0].Value.AMFUENGAPID.Value
 //@ call GetNasPdu reply (msg *ngapType.DownlinkNASTransport, ngapMsg *ngapType.NGAPPDU): msg == ngapMsg.InitiatingMessage.Value.DownlinkNASTransport
+// RES* and the keys are derived from the AUTN and RAND of the Authentication Request that was decoded
+//@ call (*RanUeContext).DeriveRESstarAndSetKey challenge (autn [16]uint8, rand []byte, nasPdu *nas.Message): vcIsChallengeOf(autn, rand, nasPdu)
 //@ call ManageError completes (err error): err == nil || vc.Faulted()
 //@ driver
 //@ assumepre
